@@ -141,6 +141,33 @@ CLAIMED['C17'] = dict(
          'declarative activity relation).'),
    note=BASE_TB + ' Numeric strings cast "for benchmark use" are outside the model; doubles are exact rationals.',
    technique='Rocq proof (invariant of the BFS worklist, stable-sort lemma) + vm_compute correspondence', design='5/C17')
+CONV_NOTE = BASE_TB + (' Decoding (DefaultModelInputConverter._to_parameter_value, one-hot un-embedding, label sign) is a hand-written model over exact '
+  'rationals with +-inf/nan (Model/Conv.v) tied by correspondence; the scaling formulas and the should_clip defaults / call sites are '
+  'regenerated from converters/core.py on every run by harness/translate/scalers.py (fail-closed) into coq/Gen/Scalers.v, and the theorems about '
+  'them are over Coq reals (classical real-number axioms of the standard library: sig_forall_dec, sig_not_dec, functional extensionality as '
+  'reported by Print Assumptions). float32/float64 rounding is not modelled: the harness allows the error that rounding the input to the '
+  'feature dtype forces through the scaler slope. GP designers (GP_UCB_PE, GAUSSIAN_PROCESS_BANDIT) cannot run here (equinox stand-in) and are '
+  'covered only through their shared converter.')
+CLAIMED['C03'] = dict(
+   text=('Theorems: decoding ANY extended real (incl. +-inf) with clipping on yields a value inside the parameter domain or "missing", for every '
+         'well-formed DOUBLE / INTEGER / DISCRETE / CATEGORICAL config, continuified or indexed (C03_decode_in_domain, closed under the global '
+         'context); every DefaultModelInputConverter construction site in the converters package leaves clipping on (C03_all_sites_clip, over the '
+         'translated site list); without clipping the statement is REFUTED by a kernel-checked witness (C03_noclip_refuted); snapping returns a '
+         'closest feasible value; LOG / REVERSE_LOG with a non-positive bound is refused. PARTIAL: the algorithms themselves (random, '
+         'quasi-random, grid, eagle, NSGA-II, CMA-ES, BOCS, Harmonica, default seeding) are not modelled; every suggestion they make on generated '
+         'spaces x histories is checked by an independent membership oracle, and refusals must be exceptions. Two defects found and repaired '
+         '(LOG scale with low bound 0; +-inf decoded as "missing").'),
+   note=CONV_NOTE, technique='Rocq proof (case analysis on the decode pipeline, argmin lemma) + translator + vm_compute correspondence + membership monitor', design='5/C03')
+CLAIMED['C15'] = dict(
+   text=('Theorems: index decode returns the feasible value at that index; one-hot blocks have exactly one 1 and argmax recovers the index; '
+         'decode of any extended real lands in the domain (shared with C03); label sign flip is an involution under either convention (all closed '
+         'under the global context); for the scaling formulas as translated from today\'s source, over the reals and for all 0 < lo < hi: range '
+         '[0,1], endpoints 0 and 1, strictly increasing, unscale(scale x) = x for LINEAR, LOG and REVERSE_LOG (C15_*_scale; depend on the '
+         'standard library\'s classical real axioms). PARTIAL: float rounding, DictOf2DArrays plumbing, padding and the composition '
+         'encode->scale->embed->unembed->unscale->decode are decided by round-trip runs of the real converters over generated spaces x options '
+         'x points (exact for integer / discrete / categorical, conditioning-aware tolerance for doubles), not by one end-to-end theorem. '
+         'ProblemAndTrialsScaler and safety-metric warping are not covered.'),
+   note=CONV_NOTE, technique='Rocq proof (real analysis with ln/exp monotonicity; list lemmas for one-hot) + translator + vm_compute correspondence + round-trip monitor', design='5/C15')
 ALL = ['C%02d' % i for i in range(1, 21)]
 m = {
  'version': 1,
